@@ -64,7 +64,7 @@ func guardedExec(exec func(J, *Writer), vec J, w *Writer) {
 	}
 	ch := make(chan result, 1)
 	go func() {
-		sub := &Writer{}
+		sub := &Writer{n: w.n} // in-memory; keeps counting trace lines from where the file stands
 		defer func() {
 			if r := recover(); r != nil {
 				st := string(debug.Stack())
